@@ -481,9 +481,9 @@ UNITS += [
     Unit("c18_partition_n6", build_partition(6), "h_partition", unwind=9, timeout=600, bounded="all arrays of length <= 6, elements < 32, every predicate on them (symbolic table)",
          must_have=[r"partition.split", r"partition.permutation", r"unwinding assertion"], checks=["--bounds-check", "--pointer-check"], no_canary=False,
          replay=REPLAY_ALGO, note="partition_impl == std::partition semantics (bounded)"),
-    Unit("c18_heapsort_u4", build_heapsort("unsigned", 4), "h_sort", unwind=7, timeout=900, bounded="all unsigned arrays of length <= 4 (every permutation and multiset, symbolic contents)",
-         must_have=[r"sort.sorted", r"sort.permutation", r"unwinding assertion"], checks=["--bounds-check", "--pointer-check"],
-         replay=REPLAY_ALGO, note="heapsort_impl (sift_down, pop_heap, make_heap, sort_heap, partial_sort): sorted permutation (bounded)"),
+    Unit("c18_heapsort_u5", build_heapsort("unsigned", 5), "h_sort", unwind=8, timeout=1800, bounded="all unsigned arrays of length <= 5 (symbolic contents; the smallest length that reaches the second-level child comparison of sift_down)",
+         must_have=[r"sort.sorted", r"sort.permutation", r"unwinding assertion"], checks=["--bounds-check", "--pointer-check"], backend=["sat", "kissat"],
+         replay=REPLAY_ALGO, note="heapsort_impl<unsigned> (bounded), every block of sift_down / pop_heap / make_heap reachable"),
     Unit("c18_heapsort_u6", build_heapsort("unsigned", 6), "h_sort", unwind=9, timeout=3600, tier="thorough", bounded="all unsigned arrays of length <= 6",
          must_have=[r"sort.sorted", r"sort.permutation", r"unwinding assertion"], checks=["--bounds-check", "--pointer-check"],
          replay=REPLAY_ALGO, note="heapsort_impl: sorted permutation (bounded, thorough)"),
